@@ -71,6 +71,7 @@ char* f_ptrs(char* p, int* q, void* v);
 int f_fn(long (*cb)(long, unsigned), void (*gf)(void));
 long f_struct(SimPair pr);
 long f_struct3(SimPair3 pr);
+long f_callS(long (*cb)(SimPair), SimPair pr);
 SimPair f_ret_struct(long a);
 void f_void(void);
 unsigned long f_many(int a0, int a1, int a2, int a3, int a4, int a5, int a6, int a7, int a8, int a9, int a10, unsigned a11);
@@ -121,10 +122,11 @@ enum FnId
   FN_FNRET,
   FN_CALLC,
   FN_STRUCT3,
+  FN_CALLS,
   FN_COUNT
 };
 static const char* kFnName[] = { "f_ints", "f_fp", "f_enum", "f_ptrs", "f_fn", "f_struct", "f_ret_struct", "f_void", "f_many", "f_u",
-                                 "f_rs", "f_ruc", "f_rll", "f_rb", "f_rf", "f_fnret", "f_callc", "f_struct3" };
+                                 "f_rs", "f_ruc", "f_rll", "f_rb", "f_rf", "f_fnret", "f_callc", "f_struct3", "f_callS" };
 
 struct GuestRec
 {
@@ -189,6 +191,19 @@ struct G
   {
     grec(FN_STRUCT, LIB, { (uint64_t)(int64_t)pr.a, pr.p, (uint64_t)(int64_t)pr.s, pr.u });
     return (int32_t)g_result_bits;
+  }
+  // hands the struct it received on to a callback, by value, after the guest has put its own pointer / long into it
+  static int32_t callS(uint32_t cb, GPair pr)
+  {
+    grec(FN_CALLS, LIB, { cb, (uint64_t)(int64_t)pr.a, pr.p, (uint64_t)(int64_t)pr.s, pr.u });
+    if (g_callc_override) {
+      pr.p = g_callc_fp;
+      pr.a = g_callc_l;
+    }
+    int32_t r = Sbx::guest_call<int32_t, GPair>(cb, pr);
+    g_callc_guest_got = (uint32_t)r;
+    g_callc_returned = true;
+    return r;
   }
   static int32_t st3(GPair3 pr)
   {
@@ -288,7 +303,8 @@ static std::vector<Sym> make_lib()
                          { "f_rs", (void*)&G<LIB>::rs },         { "f_ruc", (void*)&G<LIB>::ruc },
                          { "f_rll", (void*)&G<LIB>::rll },       { "f_rb", (void*)&G<LIB>::rb },
                          { "f_rf", (void*)&G<LIB>::rf },         { "f_fnret", (void*)&G<LIB>::fnret },
-                         { "f_callc", (void*)&G<LIB>::callc },   { "f_struct3", (void*)&G<LIB>::st3 } };
+                         { "f_callc", (void*)&G<LIB>::callc },   { "f_struct3", (void*)&G<LIB>::st3 },
+                         { "f_callS", (void*)&G<LIB>::callS } };
   if (LIB == 1)
     std::reverse(v.begin(), v.end()); // same names, different table indices
   return v;
@@ -392,6 +408,23 @@ static rlbox::tainted<unsigned long, SB> hcb_ul(rlbox::rlbox_sandbox<SB>& sb, rl
   return (unsigned long)g_hcb_ret;
 }
 
+// a callback that takes a registered struct by value
+struct CbSRec
+{
+  void* sandbox;
+  long a;
+  uintptr_t p;
+  short s;
+  unsigned long u;
+};
+static std::vector<CbSRec> g_cbs_log;
+static long g_cbs_ret;
+static rlbox::tainted<long, Sbx> app_cbS(Sandbox& sb, rlbox::tainted<SimPair, Sbx> pr)
+{
+  g_cbs_log.push_back(CbSRec{ &sb, pr.a.UNSAFE_unverified(), (uintptr_t)pr.p.UNSAFE_unverified(), pr.s.UNSAFE_unverified(), pr.u.UNSAFE_unverified() });
+  return g_cbs_ret;
+}
+
 enum Kind
 {
   I_INTS,
@@ -488,6 +521,8 @@ struct InvokeWorld : World
     std::unique_ptr<rlbox::sandbox_callback<long (*)(long, unsigned), Sbx>> cb;
     using CbC = rlbox::sandbox_callback<unsigned long (*)(char, bool, long long, float, Color, unsigned short, void (*)(void), long), Sbx>;
     std::unique_ptr<CbC> cbc;
+    using CbS = rlbox::sandbox_callback<long (*)(SimPair), Sbx>;
+    std::unique_ptr<CbS> cbs;
     TT<char*> buf = nullptr;
     TT<int*> ibuf = nullptr;
     bool have_addr[FN_COUNT] = {};
@@ -1133,8 +1168,67 @@ struct InvokeWorld : World
   }
 
   // C12: every scalar kind, a function pointer and a long through a callback; unsigned long result back to the guest
+  // C12: a registered struct handed to a callback by value (fields converted from the guest layout, the pointer field
+  // whatever the guest put there)
+  void op_cbstruct(SbxM& m, const Op& op)
+  {
+    if (!m.cbs)
+      return;
+    Rng r((uint64_t)op.a[2]);
+    uintptr_t base = (uintptr_t)m.sb->get_sandbox_impl()->mem.base;
+    size_t size = m.sb->get_sandbox_impl()->mem.size;
+    rlbox::tainted<SimPair, Sbx> pr;
+    short sv = (short)pick_int(r, 16, true);
+    unsigned long uv = (unsigned long)(unsigned)pick_int(r, 32, false);
+    pr.a = 1;
+    pr.s = sv;
+    pr.u = uv;
+    pr.p = nullptr;
+    g_callc_override = true;
+    g_callc_fp = r.chance(1, 4) ? 0 : (uint32_t)pick_int(r, 32, false); // the pointer field as the guest sets it
+    g_callc_l = (int32_t)pick_int(r, 32, true);
+    g_callc_returned = false;
+    long retv = (long)pick_int(r, 64, true);
+    if (r.chance(2, 3))
+      retv = (int32_t)retv;
+    g_cbs_ret = retv;
+    g_cbs_log.clear();
+    bool ret_fits = retv >= INT32_MIN && retv <= INT32_MAX;
+    long got = 0;
+    size_t before = g_glog.size();
+    Outcome o = attempt([&] { got = m.sb->invoke_sandbox_function(f_callS, *m.cbs, pr).UNSAFE_unverified(); });
+    g_callc_override = false;
+    C->ev("callback_struct_by_value ret_fits=%d -> %s", (int)ret_fits, oname(o));
+    C->probe("callback_with_struct_parameter");
+    if (g_glog.size() != before + 1 || g_glog.back().fn != FN_CALLS)
+      return;
+    if (g_cbs_log.size() != 1) {
+      C->violate("C12", "callback_not_run_exactly_once@callback_scalar_kinds", "struct parameter: %zu runs (%s)", g_cbs_log.size(), oname(o));
+      return;
+    }
+    const CbSRec& rec = g_cbs_log[0];
+    uintptr_t want_p = g_callc_fp == 0 ? 0 : base + (g_callc_fp & (size - 1));
+    if (rec.sandbox != m.sb.get() || rec.a != (long)g_callc_l || rec.p != want_p || rec.s != sv || rec.u != uv) {
+      C->violate("C12", rec.p != want_p && (rec.p == 0 || want_p == 0) ? "null_pointer_field_not_preserved@callback_scalar_kinds" : "wrong_arguments@callback_scalar_kinds",
+                 "struct parameter: a %ld/%d p-base %lld/%lld s %d/%d u %lu/%lu", rec.a, g_callc_l, rec.p ? (long long)(rec.p - base) : -1LL, want_p ? (long long)(want_p - base) : -1LL, rec.s, sv, rec.u, uv);
+      return;
+    }
+    if (!ret_fits) {
+      C->fired("F9_unrepresentable_callback_result");
+      if (o != ABORT || g_callc_returned)
+        C->violate("C12", "unrepresentable_result_not_refused@callback_scalar_kinds", "struct parameter: callback returned %ld: %s", retv, oname(o));
+      return;
+    }
+    if (o != OK || !g_callc_returned || (int32_t)g_callc_guest_got != (int32_t)retv || got != (long)(int32_t)retv)
+      C->violate("C12", "wrong_result_delivered_to_guest@callback_scalar_kinds", "struct parameter: callback returned %ld, guest received %d, application got %ld (%s)", retv, (int32_t)g_callc_guest_got, got, oname(o));
+  }
+
   void op_cbtypes(SbxM& m, const Op& op)
   {
+    if (op.a[1] & 4) {
+      op_cbstruct(m, op);
+      return;
+    }
     if (!m.cbc)
       return;
     Rng r((uint64_t)op.a[2]);
@@ -1286,6 +1380,7 @@ struct InvokeWorld : World
       m.ibuf = m.sb->malloc_in_sandbox<int>(4);
       m.cb = std::make_unique<rlbox::sandbox_callback<long (*)(long, unsigned), Sbx>>(m.sb->register_callback(app_cb));
       m.cbc = std::make_unique<SbxM::CbC>(m.sb->register_callback(app_cbC));
+      m.cbs = std::make_unique<SbxM::CbS>(m.sb->register_callback(app_cbS));
     });
   }
 
@@ -1401,6 +1496,7 @@ struct InvokeWorld : World
             break;
           m.cb.reset();
           m.cbc.reset();
+          m.cbs.reset();
           attempt([&] { m.sb->destroy_sandbox(); });
           m.created = false;
           c.fired("F12_destroy_instance");
@@ -1520,6 +1616,7 @@ struct InvokeWorld : World
     for (auto& m : S) {
       m.cb.reset();
       m.cbc.reset();
+      m.cbs.reset();
       if (m.created)
         attempt([&] { m.sb->destroy_sandbox(); });
     }
